@@ -79,13 +79,34 @@ type result struct {
 	evs  []string
 }
 
-func one(x *explore.X, f *execx.Fixture, depth int) result {
+// fixedDocs: mutations whose shape is given, so that the whole deviation budget goes into
+// resolver kinds (thunks returning objects whose fields are thunks again, lists of thunks,
+// failing thunks next to later top-level fields).
+var fixedDocs = []string{
+	`mutation {m3 {x o {y}} m1}`,
+	`mutation {m4 {x y} m3 {y} m2}`,
+	`mutation {a: m3 {x} b: m3 {y} m5}`,
+	`mutation A {m1 m3 {l {x}}} query B {b}`,
+}
+
+func one(x *explore.X, f *execx.Fixture, depth int) result { return oneDoc(x, f, depth, -1) }
+
+func oneDoc(x *explore.X, f *execx.Fixture, depth int, fixed int) result {
 	curX = x
 	defer func() { curX = nil }()
 	f.W.X = x
 	f.W.ResetAll()
-	g := &gen.DocGen{S: f.G, X: x, MaxDepth: depth, MaxSibs: 4, RootType: f.G.Mutation, RootKind: "mutation"}
-	doc := g.Query()
+	var doc *gen.Doc
+	if fixed >= 0 {
+		d, err := execx.DocFromText(fixedDocs[fixed])
+		if err != nil {
+			return result{bad: "PARSE " + err.Error(), text: fixedDocs[fixed]}
+		}
+		doc = d
+	} else {
+		g := &gen.DocGen{S: f.G, X: x, MaxDepth: depth, MaxSibs: 4, RootType: f.G.Mutation, RootKind: "mutation"}
+		doc = g.Query()
+	}
 	text := doc.Render()
 	{
 		// response keys of the top level, sorted: how the seam recognises the root map
@@ -219,6 +240,37 @@ func run(c *core.Ctx) {
 		return dig
 	})
 	c.Absorb(e)
+	kdev := c.Pick(3, 4)
+	c.R.Bounds["fixed_documents"] = len(fixedDocs)
+	c.R.Bounds["fixed_documents_resolver_kind_deviations"] = kdev
+	for di := range fixedDocs {
+		di := di
+		e := c.Explorer(kdev)
+		e.Run(func(x *explore.X, owned bool) uint64 {
+			r := oneDoc(x, f, depth, di)
+			dig := report.H(r.text + strings.Join(r.evs, ";") + r.bad)
+			if !owned {
+				return dig
+			}
+			c.R.Evaluations++
+			c.R.States++
+			c.R.Outcome(dig)
+			for _, ev := range r.evs {
+				if strings.HasPrefix(ev, "thunk") {
+					c.R.Nontriv(report.H(fmt.Sprint("fixed", di, x.Trace())))
+					break
+				}
+			}
+			if c.R.WantSample() {
+				c.R.Sample(map[string]interface{}{"mutation": r.text, "events": r.evs, "choices": x.Trace()})
+			}
+			if r.bad != "" && r.bad != "SKIP" {
+				c.Mismatch(classify(r), "order", fmt.Sprintf("mutation %q: %s", r.text, r.bad), map[string]interface{}{"choices": x.Trace(), "depth": depth, "fixed": di})
+			}
+			return dig
+		})
+		c.Absorb(e)
+	}
 }
 
 func classify(r result) string { return "" }
@@ -236,7 +288,11 @@ func replay(c *core.Ctx, p map[string]interface{}) (bool, string) {
 	vseam.OrderKeys = order
 	var r result
 	explore.Replay(choices, 0, func(x *explore.X, owned bool) uint64 {
-		r = one(x, f, 1)
+		fixed := -1
+		if fx, ok := p["fixed"].(float64); ok {
+			fixed = int(fx)
+		}
+		r = oneDoc(x, f, 1, fixed)
 		return 0
 	})
 	if r.bad != "" && r.bad != "SKIP" {
